@@ -117,10 +117,16 @@ func describe(x *absint.Exec, t absint.Terminal) map[string]interface{} {
 // locOf resolves a load symbol "§@n" to the location it was loaded from ("" if v is not one).
 func locOf(x *absint.Exec, v absint.Value) string {
 	s, ok := v.(absint.Sym)
-	if !ok || !strings.HasPrefix(s.Name, "@") {
+	if !ok {
 		return ""
 	}
-	return x.LocOf[s.Name[1:]]
+	// "@n" is the initial content of location n; "j@n"/"w@n" its content after a join or a loop
+	for _, pre := range []string{"@", "j@", "w@"} {
+		if strings.HasPrefix(s.Name, pre) {
+			return x.LocOf[s.Name[len(pre):]]
+		}
+	}
+	return ""
 }
 
 // requireAnchor reports a missing exported anchor as an undecided obligation.
